@@ -195,6 +195,42 @@ def mutate_dmm(draw, d):
 
 
 @st.composite
+def eom_block_cases(draw, tier):
+    """One EOM channel used from t=0: a first block of back-to-back EOM pulses (no buffer before it,
+    no idle time in it), then a setpoint change or a second block, then more pulses; the other device
+    differs in its EOM configuration only. Strict."""
+    dev = draw(gen.device_specs(n_channels=(1, 1), allow_builtin=False, allow_dmm=False,
+                                chan_kw={"kind": "Rydberg", "eom": True, "addr": "Global", "bandwidth": [8, 40]}))
+    reg = draw(gen.register_specs(n=(1, 2), layout=False))
+    fl = lambda lo, hi: draw(gen.fl(lo, hi))  # noqa: E731
+    offs = [0.0, 0.0, 100.0, -100.0, 3.0, -8.0]
+
+    def enable():
+        return dict(op="enable_eom", ch=0, amp_on=fl(0.5, 8.0), det_on=draw(st.sampled_from([0.0, 0.0, 2.0, -3.0])),
+                    style="kw", opt_off=draw(st.sampled_from(offs)), cpd=draw(st.booleans()))
+
+    def pulses():
+        return [dict(op="add_eom", ch=0, d=draw(st.sampled_from([20, 52, 100])), phase=0.0, style="kw", pps=0.0,
+                     cpd=False) for _ in range(draw(st.integers(1, 3)))]
+
+    ops = [dict(op="declare", name="ch0", cid=0, style="pos"), enable()] + pulses()
+    for _ in range(draw(st.integers(1, 2))):
+        if draw(st.booleans()):
+            e = enable()
+            ops.append(dict(e, op="modify_eom"))
+        else:
+            ops += [dict(op="disable_eom", ch=0, style="pos"), enable()]
+        ops += pulses()
+    if draw(st.booleans()):
+        ops.append(dict(op="disable_eom", ch=0, style="pos"))
+    base = c08.normalise(dict(device=dev, register=reg, ops=ops))
+    B = copy.deepcopy(base["device"])
+    B["name"] = "GenDevB"
+    B["channels"] = [draw(mutate_eom(c)) for c in B["channels"]]
+    return dict(base=base, devB=B, strict=True, moved=[list(p) for p in base["register"]["coords"]])
+
+
+@st.composite
 def cases(draw, tier, prof=profile):
     base = c08.normalise(draw(gen.programs(prof(tier))))
     A = base["device"]
@@ -497,6 +533,10 @@ CLAUSES = [
     Clause("switch_retarget", check, gen=lambda t: cases(t, profile_retarget),
            budget={"quick": (8, 150), "thorough": (16, 1500)},
            doc="local channels with frequent retargets x devices differing only in retarget times (half parametrized)"),
+    Clause("switch_eom_blocks", check, gen=lambda t: eom_block_cases(t),
+           budget={"quick": (16, 60), "thorough": (16, 1500)},
+           doc="strict switch between devices differing in the EOM configuration only, for a channel used in "
+               "EOM mode from t=0 over several blocks of back-to-back pulses"),
     Clause("switch_eom", check, gen=lambda t: cases(t, profile_eom),
            budget={"quick": (8, 120), "thorough": (16, 1500)},
            doc="EOM-heavy programs x devices differing only in the EOM configuration (half parametrized)"),
